@@ -64,6 +64,7 @@ def run(ctx):
         judge_final(ctx, athlib, ops, c, r, stats)
         ctx.seen(H.snap(c).split('|')[2])
         lines.append('hj\tnew'); expect.append(None)
+        ops = [op for op in ops if op[0] != 'peek']                 # the model has no read-only views
         for op in ops[:-1]:
             lines.append(H.op_line(op)); expect.append(None)
         # the model must end in the same observable state (only the last reply is compared: outcome + snapshot)
@@ -87,13 +88,13 @@ def run(ctx):
     for i in range(n):
         if i % 3 != 2:
             ops, c, r = H.gen_competition(rng, athlib, nath=rng.randint(2, 4), nheights=rng.randint(1, 3), jo_heights=3 if ctx.quick() else 5,
-                                          att_choice=lambda g: g.choice(['o', 'o', 'o', 'xo', 'xo', 'xxx', 'xxx']))
+                                          att_choice=lambda g: g.choice(['o', 'o', 'o', 'xo', 'xo', 'xxx', 'xxx']), peek=(i % 6 == 1))
         elif i % 2:
             # bar heights as Python floats (as the unit tests pass them), from anywhere between 1.00 and 2.60, 1-5 cm steps
             ops, c, r = H.gen_competition(rng, athlib, float_heights=True, h0=rng.randint(100, 260), steps=(1, 1, 2, 3, 5),
                                           att_choice=(lambda g: g.choice(['o', 'o', 'o', 'xo', 'xo', 'xxx', 'xxx'])) if i % 4 == 1 else None)
         else:
-            ops, c, r = H.gen_competition(rng, athlib)
+            ops, c, r = H.gen_competition(rng, athlib, peek=(i % 4 == 2), jo_heights=3 if ctx.quick() else 5)
         run_one(ops, c, r)
         if i < 3: ctx.sample({'calls': H.fmt_ops(ops), 'state': c.state, 'places': {j.bib: j.place for j in c.jumpers}})
     got = vlib.driver(lines)
